@@ -114,6 +114,21 @@ func run(t *testing.T, sc scenario) (out outcome) {
 		}
 		start := time.Now()
 		xid := uint32(0x00c0ffee)
+		if sc.Traffic == "instant-reply" {
+			// a server that answers at once: the reply is read and routed by the receive loop
+			// before the client's WriteTo returns
+			first := true
+			conn.OnWrite = func(w sconn.Write) {
+				if !first {
+					return
+				}
+				first = false
+				n := conn.Reads()
+				conn.Inject(sconn.Datagram{B: f.Datagram("matching", xid, 1, f.AcceptType()), From: dest, Nonce: 1, Class: "matching"})
+				out.injected++
+				conn.WaitReads(n + 1) // the receive loop has routed the reply and is reading again
+			}
+		}
 		req := f.Request(xid, 0)
 		ctx, cancel := context.WithCancel(context.Background())
 		if sc.Event == "deadline" {
@@ -223,6 +238,9 @@ func judge(r *mon.Rec, t *testing.T, sc scenario) {
 	if hasAccept && sc.TA < e.at {
 		e = exp{sc.TA, "response"}
 	}
+	if sc.Traffic == "instant-reply" {
+		e = exp{0, "response"}
+	}
 	switch sc.Event {
 	case "cancel", "deadline":
 		if sc.TC < e.at {
@@ -310,7 +328,7 @@ func grid(quick bool) []scenario {
 			for n := 1; n <= 5; n++ {
 				B := T * time.Duration((int64(1)<<uint(n))-1)
 				instants := []time.Duration{1, T / 3, T - 1, T + 1, 2*T + T/2, B - 1, B + T}
-				for _, tr := range []string{"silence", "accept", "reject-T/7", "reject-T/2", "reject-T-1", "burst", "mixture", "reject+accept"} {
+				for _, tr := range []string{"instant-reply", "silence", "accept", "reject-T/7", "reject-T/2", "reject-T-1", "burst", "mixture", "reject+accept"} {
 					tas := []time.Duration{-1}
 					if tr == "accept" || tr == "burst" || tr == "reject+accept" {
 						tas = instants[:6]
